@@ -218,6 +218,20 @@ def run(tier, seed):
     states += ca["states"]
     trans += ca["transitions"]
     n_rep += ca["replayed"]
+    # replicas of NEURAL policies are decoded with their own instance's embeddings: multi-start / multi-sample rollouts of the
+    # attention model (incl. SDVRP, whose decoder embeddings are updated per step) recorded per step against an independent
+    # reference loop and re-evaluated as ordinary rows of their own instance (DecodeTrace.tla)
+    from . import c11_nets
+    nrecs = c11_nets.records(tier, seed, only={("AM", "tsp"), ("AM", "cvrp"), ("AM", "sdvrp"), ("POMO", "tsp")},
+                             only_modes=lambda m: m.startswith("multi"), extras=False)
+    nfails, _, nst, _ = validate_records("DecodeTrace", nrecs, c11_nets.INV, "c12n")
+    states += nst
+    for f in nfails:
+        rec = nrecs[f[0]]
+        viol.append({"property": "C12", "env": rec["policy"] + "/" + rec["env"], "monitor": "replica-" + f[1],
+                     "inst": {"mode": rec["mode"], "row": rec["row"]}, "actions": rec["actions"],
+                     "detail": "step %s reported %s reference %s re-evaluated as a row of its own instance %s"
+                               % (f[2] if len(f) > 2 else "", rec["lp"][:6], rec["ref"][:6], rec["eval_lp"][:6])})
     # test-time search (ActiveSearch, EAS): replica -> instance index algebra, data-set offsets of the result buffers (Search.tla)
     from . import c15b_search
     vs, cs = c15b_search.violations(tier, seed)
@@ -235,6 +249,7 @@ def run(tier, seed):
            "tlc_action_coverage": r1.coverage(), "unbounded": unb,
            "ant_colony_search": {k: v for k, v in ca.items() if k != "samples"},
            "test_time_search": {k: v for k, v in cs.items() if k != "samples"},
+           "neural_replica_traces": len(nrecs),
            "explanation": "Layout.tla model-checked; terminal states replayed into batchify/unbatchify/_select_best; "
                           "select_start_nodes of real envs validated by LayoutTrace.tla; the index algebra is lifted to all batch "
                           "sizes / nesting depths / factors / K by Apalache inductive invariants (MC_Layout_apa.tla) and TLAPS "
